@@ -4,6 +4,7 @@ import (
 	stdjson "encoding/json"
 	"fmt"
 	"runtime"
+	"sync"
 
 	gojson "github.com/goccy/go-json"
 
@@ -66,8 +67,18 @@ func wGrow(n int) int {
 }
 
 func (g wGrower) MarshalJSON() ([]byte, error) {
-	wGrow(3000)
-	runtime.GC()
+	wGrow(3000)  // the stack of this goroutine is moved
+	runtime.GC() // the old stack segment is released
+	// other goroutines take over released stack memory and write to it
+	var wg sync.WaitGroup
+	for i := 0; i < 64; i++ {
+		wg.Add(1)
+		go func(i int) {
+			defer wg.Done()
+			wGrow(40 + i*7)
+		}(i)
+	}
+	wg.Wait()
 	junk := make([][]byte, 256)
 	for i := range junk {
 		junk[i] = make([]byte, 8192)
@@ -135,7 +146,7 @@ func init() {
 	// open: MarshalNoEscape keeps a raw address into the caller's frame across callbacks that move the stack
 	Witnesses["KF-C08-noescape-stack-growth"] = func() (bool, string) {
 		want := `{"H":"grown","A":100,"Z":1234605616436508552,"S":"tail"}`
-		for i := 0; i < 20; i++ {
+		for i := 0; i < 60; i++ {
 			var got []byte
 			var err error
 			done := make(chan struct{})
@@ -150,7 +161,7 @@ func init() {
 				return true, fmt.Sprintf("MarshalNoEscape(&x) of a frame-local struct whose first member's marshaler grows the stack: got %.200q err=%v, want %s", got, err, want)
 			}
 		}
-		return false, "20 attempts agreed"
+		return false, "60 attempts agreed"
 	}
 	// open: memory of the indenting interpreters on deeply nested maps grows with depth x output
 	Witnesses["KF-C08-indent-nested-map-memory"] = func() (bool, string) {
